@@ -392,7 +392,7 @@ void Interpreter::execute_pre_return_cleanup() {
     // 1. defer実行（LIFO順）
     if (!defer_stacks_.empty() && !defer_stacks_.back().empty()) {
         std::vector<const ASTNode *> defers = defer_stacks_.back();
-        defer_stacks_.pop_back();
+        defer_stacks_.back().clear(); // keep the level: the scope's own pop removes it
         for (auto it = defers.rbegin(); it != defers.rend(); ++it) {
             execute_statement(*it);
         }
@@ -400,13 +400,14 @@ void Interpreter::execute_pre_return_cleanup() {
 
     // 2. デストラクタ実行（LIFO順）
     if (!destructor_stacks_.empty() && !destructor_stacks_.back().empty()) {
-        const auto &destroy_list = destructor_stacks_.back();
+        const std::vector<std::pair<std::string, std::string>> destroy_list =
+            destructor_stacks_.back();
+        destructor_stacks_.back().clear(); // keep the level (see above)
         for (auto it = destroy_list.rbegin(); it != destroy_list.rend(); ++it) {
             const std::string &var_name = it->first;
             const std::string &struct_type_name = it->second;
             call_destructor(var_name, struct_type_name);
         }
-        destructor_stacks_.pop_back();
     }
 }
 
